@@ -527,6 +527,66 @@ pub fn run_generated(check: &dyn Check, cfg: &RunConfig, agg: &mut Aggregate) ->
     }
 }
 
+/// Development tool (`vh <Cnn> hitrate [quick|thorough]`): runs the generated cases of a tier
+/// WITHOUT stopping at the first failure and reports how many cases fail - used with a seeded
+/// change applied, to measure how often the generator reaches what the change needs (a check that
+/// catches a change with one case in a whole run is one unlucky seed away from missing it).
+pub fn hitrate(check: &dyn Check, cfg: &RunConfig) -> i32 {
+    install_panic_hook();
+    let total = ((check.cases(cfg.thorough) as f64) * cfg.scale) as usize;
+    let threads = cfg.threads.max(1);
+    let per_thread = total.div_ceil(threads);
+    let fails = AtomicU64::new(0);
+    let ran = AtomicU64::new(0);
+    let samples: Mutex<Vec<String>> = Mutex::new(Vec::new());
+    std::thread::scope(|s| {
+        for t in 0..threads {
+            let (fails, ran, samples) = (&fails, &ran, &samples);
+            s.spawn(move || {
+                install_panic_hook();
+                let config = Config {
+                    cases: per_thread as u32,
+                    failure_persistence: None,
+                    rng_algorithm: RngAlgorithm::ChaCha,
+                    rng_seed: RngSeed::Fixed(seed_for(cfg.seed, check.id(), t)),
+                    verbose: 0,
+                    ..Config::default()
+                };
+                let mut runner = TestRunner::new(config);
+                let strategy = proptest::collection::vec(proptest::num::u8::ANY, 0..2048);
+                let _ = runner.run(&strategy, |bytes| {
+                    let mut d = Dec::new(&bytes);
+                    let Ok(case) = guard(|| check.generate(&mut d, cfg.thorough)) else {
+                        return Ok(());
+                    };
+                    ran.fetch_add(1, Ordering::Relaxed);
+                    if let Ok(Err(f)) = guard(|| check.check(&case)) {
+                        fails.fetch_add(1, Ordering::Relaxed);
+                        let mut g = samples.lock().unwrap();
+                        if g.len() < 6 {
+                            let mut j = case.to_json().to_string();
+                            j.truncate(700);
+                            g.push(format!("{}: {} | {}", f.kind, f.what.chars().take(200).collect::<String>(), j));
+                        }
+                    }
+                    Ok(())
+                });
+            });
+        }
+    });
+    for smp in samples.lock().unwrap().iter() {
+        println!("sample {}", smp);
+    }
+    println!(
+        "HITRATE property={} tier={} cases={} failing={}",
+        check.id(),
+        tier_name(cfg.thorough),
+        ran.load(Ordering::Relaxed),
+        fails.load(Ordering::Relaxed)
+    );
+    0
+}
+
 pub fn tier_name(thorough: bool) -> &'static str {
     if thorough {
         "thorough"
